@@ -402,7 +402,15 @@ def cases(tier, seed):
     return out
 
 
+def named_case(item):
+    from . import _named
+
+    return _named.named_case(item)
+
+
 def replay(case):
+    if case.get("kind") == "named":
+        return named_case(tuple(case["where"]))[1]
     return chunk_case([_unj(case["where"])])[1]
 
 
@@ -411,7 +419,7 @@ def _unj(it):
 
 
 def run(ctx):
-    ctx.rule = "selections (empty, 1, 2, 3 names) x two return tables x now x lookback x lag; weight vectors on a 1/8 grid x caps; live portfolios reached by real rebalances x targets x limits; bounds x sums x seeds; each on a real Strategy; a case is non-trivial if the window is non-degenerate and the algo was executed"
+    ctx.rule = "selections (empty, 1, 2, 3 names) x two return tables x now x lookback x lag; weight vectors on a 1/8 grid x caps; live portfolios reached by real rebalances x targets x limits; bounds x sums x seeds; each on a real Strategy; target-weight tables handed to a real Backtest by name (aligned, sparse, late-starting, longer than the data); a case is non-trivial if the window is non-degenerate and the algo was executed"
     ctx.assumptions += [
         "degenerate windows (fewer than n+3 observations, zero variance) are outside what the formulas define and are not judged",
         "mean-variance weights: keys, sum, bounds only (the optimiser is ffn's); ERC: risk contributions equal within 1e-3 (iterative solver)",
@@ -434,5 +442,13 @@ def run(ctx):
                 ctx.violation(dict(v, build=kind, module=MOD, case={"where": list(v["where"])}))
         ctx.add(states=tot, transitions=tot, traces_validated_against_impl=tot, evaluations=tot)
         ctx.nontrivial_count += tot
+    named = [("target", v, 0) for v in ("aligned", "sparse", "late_start", "longer")]
+    for kind in kinds:
+        for item, (n, viols) in ctx.run(kind, MOD, "named_case", named, chunksize=1):
+            ctx.add(states=1, transitions=n, traces_validated_against_impl=n, evaluations=n)
+            ctx.nontrivial_count += 1
+            for v in viols:
+                ctx.violation(dict(v, build=kind, module=MOD, case={"kind": "named", "where": list(item)}))
+    ctx.bounds["named_table_backtests"] = len(named)
     ctx.sample({"case": list(cs[40])})
     ctx.sample({"case": list(cs[-1])})
